@@ -21,12 +21,13 @@ from checks.common import jcopy, short
 
 ALLOW = ('all', 'remote', 'local', 'sandbox', 'none')
 POST_BUILD = ('wildcard_load_namespace', 'hint_meta_namespace', 'hint_on_meta_element', 'hint_resource_outside',
-              'api_include_schema', 'api_import_schema', 'api_add_schema', 'hint_iter_errors', 'xmldocument_parse')
+              'api_include_schema', 'api_import_schema', 'api_add_schema', 'api_ctor_global_maps', 'hint_iter_errors',
+              'xmldocument_parse')
 MECHANISMS = ('include', 'import', 'redefine', 'override', 'chained', 'locations_arg', 'uri_mapper_dict',
               'uri_mapper_call', 'hint_iter_errors', 'hint_validate', 'fallback_absent', 'fallback_illformed',
               'fallback_404', 'fallback_timeout', 'wildcard_load_namespace', 'xmldocument_parse',
               'hint_to_dict', 'hint_fetch_schema', 'hint_meta_namespace', 'hint_on_meta_element', 'hint_resource_outside',
-              'api_include_schema', 'api_import_schema', 'api_add_schema')
+              'api_include_schema', 'api_import_schema', 'api_add_schema', 'api_ctor_global_maps')
 MAIN_KINDS = ('path', 'fileurl', 'remote', 'text_base', 'stream_url', 'stream_remote_url', 'stream_url_dotdot',
               'prebuilt_text')
 
@@ -258,7 +259,7 @@ class C12(Check):
         import_like = mech in ('import', 'locations_arg', 'uri_mapper_dict', 'uri_mapper_call', 'hint_iter_errors',
                                'hint_validate', 'hint_to_dict', 'hint_fetch_schema', 'wildcard_load_namespace',
                                'xmldocument_parse', 'hint_on_meta_element', 'hint_resource_outside',
-                               'api_import_schema') or mech.startswith('fallback')
+                               'api_import_schema', 'api_ctor_global_maps') or mech.startswith('fallback')
         if mech == 'hint_resource_outside':
             # the instance is a pre-built XMLResource that lives OUTSIDE the schema's sandbox; its relative hint
             # resolves next to it
@@ -461,6 +462,9 @@ class C12(Check):
                             schema.import_schema(NS_T, api_loc, build=True)
                         elif mech == 'api_add_schema':
                             schema.add_schema(api_loc, build=True)
+                        elif mech == 'api_ctor_global_maps':
+                            # one more document joins the maps of the confined schema through the constructor
+                            cls(api_loc, global_maps=schema.maps)
                         if mech == 'hint_iter_errors':
                             outcome['errors'] = [e.reason for e in schema.iter_errors(doc_path, use_location_hints=True)]
                 except BaseException as exc:
